@@ -8,7 +8,7 @@ pass terminates under a rate limit.
 import ast
 
 from ..model import dotted, unparse, norm, walk_no_nested
-from ..rulelib import Ctx, nodes_calling, short
+from ..rulelib import Ctx, nodes_calling, short, receiver_names
 from .c03 import is_none_edge
 
 
@@ -134,9 +134,7 @@ def run(check):
     else:
       r_tr.ok('MIN_TIMESTAMP_LAG = 0 on every returning path (incl. handler paths)', trig.loc(zero[0].ast))
     # re-rating of buckets in place
-    rerate = [c for c in walk_no_nested(trig.node, include_self=False) if isinstance(c, ast.Call) and
-              isinstance(c.func, ast.Attribute) and c.func.attr == 'setCapacityAndFillRate']
-    names = {dotted(c.func.value) for c in rerate}
+    names = set(receiver_names(cx, trig, 'setCapacityAndFillRate'))
     for b in ('UPDATE_BUCKET', 'CREATE_BUCKET'):
       if b in names:
         r_tr.ok('%s re-rated in place at shutdown' % b, trig.loc())
